@@ -4,7 +4,7 @@ Rec_ == ndJsonDeserialize(IOEnv.TRACE)
 VARIABLE l
 TraceInit == Init /\ l = 1
 Reset ==
-  /\ ocount' = 0 /\ owakes' = 0 /\ inPoll' = FALSE /\ touched' = 0
+  /\ ocount' = 0 /\ owakes' = 0 /\ inPoll' = FALSE /\ touched' = 0 /\ seen' = -1
   /\ rec' = [r \in Rec |-> NoRec]
   /\ fw' = [w \in FW |-> [r |-> 0, own |-> 1]]
 TraceNext ==
